@@ -6,6 +6,7 @@ from tools import vlib
 class C02(C01):
     props_vo = "theories/Props/C02.vo"
     theorems = ["C02_changed", "C02_flag"]
+    points = False
     pred = "C02_holds_b"
     rule = ("typed triples per registered Rust lattice type (as C01); the flag of merge(a,b) and merge(b,a) is "
             "compared with PartialEq of before/after and with partial_cmp; non-trivial = not (a=b=c) and some flag true")
